@@ -29,7 +29,8 @@ CASE_TIMEOUT = {'quick': 400, 'thorough': 1500}
 
 def cases(tier):
     cs = [{'name': 'rotation_matrix/general'}, {'name': 'rotation_matrix/composition'},
-          {'name': 'rotation_matrix/scale-invariance'}, {'name': 'calcule_base/all-paths'}]
+          {'name': 'rotation_matrix/scale-invariance'}, {'name': 'calcule_base/all-paths'},
+          {'name': 'calcule_base/ndarray-input', 'ndarray': True}]
     if tier == 'thorough':
         for nm in ('x', 'y', 'z', 'diag', 'xy'):
             cs.append({'name': 'calcule_base/dir-' + nm, 'direction': nm})
@@ -184,8 +185,14 @@ def run_case(case):
                 ctx.assume(expr(d[k]) == lam * dirs[k])
                 ctx.assume(expr(P[1][k] - P[0][k]) == mu * dirs[k])
         orig = [[x for x in p] for p in P]
-        (v1, v2, v3), o = aux.calcule_base(P)
-        same = all(P[i][k] is orig[i][k] for i in range(3) for k in range(3))
+        if case.get('ndarray'):
+            # the three points handed over as one (3, 3) array (e.g. rows of a positions array)
+            A = np.array([[x for x in p] for p in P], dtype=object)
+            (v1, v2, v3), o = aux.calcule_base(A)
+            same = all(A[i, k] is orig[i][k] for i in range(3) for k in range(3))
+        else:
+            (v1, v2, v3), o = aux.calcule_base(P)
+            same = all(P[i][k] is orig[i][k] for i in range(3) for k in range(3))
         return v1, v2, v3, o, P, same
 
     cover = []
@@ -228,9 +235,10 @@ def run_case(case):
         oblig(ctx, 'v1 = (p2-p0)/|p2-p0|', z3.And(*[expr(v1[k]) * expr(nrm) == expr(d[k]) for k in range(3)]), inputs, 'calcule_base')
         oblig(ctx, 'v3 normal to the plane', z3.And(dot3(v3, P[1] - P[0]) == 0, dot3(v3, d) == 0), inputs, 'calcule_base')
         oblig(ctx, 'origin = p0', z3.And(*[expr(o[k]) == pv[0][k] for k in range(3)]), inputs, 'calcule_base')
-        records.append({'name': 'inputs not modified', 'status': 'unsat' if same and all(
-            z3.eq(z3.simplify(expr(P[i][k])), pv[i][k]) for i in range(3) for k in range(3)) else 'sat', 'secs': 0,
-            'witness': None})
+        unmod = same and all(z3.eq(z3.simplify(expr(P[i][k])), pv[i][k]) for i in range(3) for k in range(3))
+        records.append({'name': 'inputs not modified', 'status': 'unsat' if unmod else 'sat', 'secs': 0,
+                        'witness': None if unmod else {'kind': 'calcule_base', 'obligation': 'inputs', 'ndarray': bool(case.get('ndarray')),
+                                                       'inputs': {k_: [3 + (7 * i_) % 11, 4] for i_, k_ in enumerate(sorted(inputs))}}})
         samples.append({'path_condition': [str(p) for p in ctx.pc][:6], 'v3[0]': str(z3.simplify(expr(v3[0])))[:200]})
         queries += ctx.queries
         solver_s += ctx.solver_time
@@ -278,7 +286,16 @@ def replay(w):
     P = [np.array([v['p%d_%d' % (i, k)] for k in range(3)]) for i in range(3)]
     P0 = [p.copy() for p in P]
     with np.errstate(all='ignore'):
-        (v1, v2, v3), o = calcule_base(P)
+        if w.get('ndarray'):
+            A = np.array(P)
+            (v1, v2, v3), o = calcule_base(A)
+            P = [A[i] for i in range(3)]
+            big = np.vstack([np.array(P0), [[9.0, 9.0, 9.0]]])
+            calcule_base(big[:3])
+            if np.abs(big[:3] - np.array(P0)).max() > 0:
+                P = [big[i] for i in range(3)]
+        else:
+            (v1, v2, v3), o = calcule_base(P)
     F = np.array([v1, v2, v3], dtype=float)
     bad = []
     collinear = not np.any(np.cross(P0[2] - P0[0], P0[1] - P0[0]))
@@ -295,3 +312,29 @@ def replay(w):
     return {'reproduced': bool(bad),
             'what': 'calcule_base (%s points): %s' % ('collinear' if collinear else 'generic', ', '.join(bad)),
             'detail': {'points': [list(p) for p in P0], 'frame': F.tolist()}}
+
+
+def fallback_probes(case):
+    """Concrete probe battery, used only when a changed rotation_matrix / calcule_base cannot be executed symbolically."""
+    records = []
+    import itertools
+    if case['name'].startswith('rotation_matrix'):
+        axes = [(0, 0, 1), (1, 2, 3), (0.57735, 0.57735, 0.57735), (0.7071, 0.7071, 0.0), (1e-6, 2e-6, -1e-6), (3e5, -4e5, 1e5)]
+        axes += [tuple(c * (1 + e) for c in (0.6, 0.0, 0.8)) for e in (1e-3, 1e-5, 4e-6, -4e-6, 1e-7)]
+        import math
+        for ax in axes:
+            for th in (0.3, -2.0, 7.5):
+                w = {'kind': 'rotation_matrix', 'inputs': {'a0': ax[0], 'a1': ax[1], 'a2': ax[2], 'c': math.cos(th), 's': math.sin(th), 'cb': math.cos(1.1), 'sb': math.sin(1.1), 'k': 2.5}}
+                r = replay(w)
+                if r['reproduced']:
+                    records.append({'name': 'fallback probes (concrete): axis %s angle %s' % (ax, th), 'status': 'sat', 'secs': 0, 'witness': w})
+        records.append({'name': 'fallback probes (concrete): %d axes x 3 angles' % len(axes), 'status': 'validated', 'secs': 0})
+    else:
+        pts = [((0, 0, 0), (1, 0, 0), (0, 1, 0)), ((1, 1, 1), (2, 2, 2), (3, 3, 3)), ((0, 0, 0), (0, 0, 1), (0, 0, 2)), ((1, 2, 3), (1, 2, 3), (2, 4, 7)),
+               ((0, 0, 0), (1, 1, 0), (2, 2, 0)), ((0.5, -1, 2), (3, 1, 0), (-2, 0.25, 1))]
+        for P in pts:
+            w = {'kind': 'calcule_base', 'ndarray': bool(case.get('ndarray')), 'inputs': {'p%d_%d' % (i, k): P[i][k] for i in range(3) for k in range(3)}}
+            r = replay(w)
+            records.append({'name': 'fallback probes (concrete): points %s' % (P,), 'status': 'sat' if r['reproduced'] else 'validated', 'secs': 0,
+                            'witness': w if r['reproduced'] else None})
+    return records
